@@ -23,8 +23,8 @@ SPEC = dict(
                 "NOT proved (tested only): everything between the kernels — graphics state, the ~200 opcode bodies, composite assembly, "
                 "the CFF charstring evaluator and stem hinter, the path normalisation; FreeType's unexported Round_*/TT_MulFix14/"
                 "FT_MulDiv_No_Round are tied to their model only by reading the C source. The property itself is checked by an "
-                "implementation-only differential grid: every static font of font-test-data plus a 577-glyph synthetic font of instruction "
-                "micro-programs (MIAP/MIRP/MDRP/ALIGNRP/ISECT/IP/SHP/DELTA/twilight/CALL/... at, above and below the cut-in thresholds) x every "
+                "implementation-only differential grid: every static font of font-test-data plus a 613-glyph synthetic font of instruction "
+                "micro-programs (MIAP/MIRP/MDRP/ALIGNRP/ISECT/IP/SHP/DELTA/twilight/CALL/... at, above and below the cut-in thresholds; CINDEX/MINDEX at the boundary indices with the whole stack made visible) x every "
                 "glyph x ppem {unscaled, 4..320, 384, 512, 768, 1000, 2048, +-1 around each font's MPPEM comparison constants} (thorough: 2..512 + "
                 "larger) x {unhinted, interpreter x {mono, normal, light, lcd, vertical lcd}} through "
                 "fauntlet's own FreeType/skrifa instances and RegularizingPen, paths and advances compared exactly; the hinted comparison is "
